@@ -165,7 +165,9 @@ func (b *Broker) reply(c *Conn, p *wire.Packet, r []byte, note string) {
 	}
 	if policy == "" {
 		// replies stay in order: once one is withheld the later ones queue behind
-		if n := len(b.Held); n != 0 && (b.Held[n-1].c == c || b.heldFor(c)) {
+		// (per reply type: the specification orders PUBACKs among themselves,
+		// PUBRECs among themselves, and the client expects the same of PUBCOMPs)
+		if len(b.Held) != 0 && b.heldFor(c, r[0]) {
 			policy = "hold"
 		}
 	}
@@ -396,9 +398,9 @@ func (b *Broker) Pending() int {
 	return len(b.State.Out)
 }
 
-func (b *Broker) heldFor(c *Conn) bool {
-	for _, h := range b.Held {
-		if h.c == c {
+func (b *Broker) heldFor(c *Conn, head byte) bool {
+	for i := len(b.Held) - 1; i >= 0; i-- {
+		if h := b.Held[i]; h.c == c && h.b[0] == head {
 			return true
 		}
 	}
